@@ -11,8 +11,8 @@ Conventions (also listed in `NOTES_visitor.md`):
   idx` for a `TerminalNode` whose token has the symbolic type `type` (`malParser.symbolicNames`), the text `text`
   and the position `idx` in the parser's token stream (`Token.tokenIndex`);
 * a context *object* is `V.ctx node up`: the node together with its chain of ancestors (`parentCtx`), nearest first;
-* `float(text)` is `V.num text`: a float is represented by the text it was read from (equality of numbers is
-  therefore textual, finer than Python's);
+* `float(text)` is `V.num text`: a float is represented by the text it was read from; `==` on two floats compares
+  the canonical forms of the texts (`canonNum`: the rational value), which is Python's `==` up to double precision;
 * dictionaries have string keys and are association lists in insertion order; `==` on dictionaries ignores the
   order (as in Python), `==` on lists / tuples does not;
 * token types (`malParser.DOT`, `token.type`) are their symbolic names;
@@ -243,15 +243,29 @@ def isList : V → Bool                 -- isinstance(x, MutableSequence)
   | .list _ => true
   | _ => false
 
+/-- the canonical text of a decimal literal (`digits`, `digits.digits`, `.digits`): no leading zeros in front of the
+point, no trailing zeros behind it, always a point.  Equal canonical texts = equal rational numbers; Python compares
+the `float`s, which is the same except beyond the precision of a double (two different literals with more than 15
+significant digits may round to the same double). -/
+def canonNum (s : String) : String :=
+  let cs := s.toList
+  let ip := (cs.takeWhile (· != '.')).dropWhile (· == '0')
+  let fp := (((cs.dropWhile (· != '.')).drop 1).reverse.dropWhile (· == '0')).reverse
+  String.ofList (ip ++ '.' :: fp)
+
+/-- `float(a) == float(b)` for two literals -/
+def numEq (a b : String) : Bool := canonNum a == canonNum b
+
 mutual
 /-- `a == b`.  Dictionaries: same length and every item of `a` is an item of `b` (order is irrelevant); lists and
-tuples: element-wise; `True == 1`, `1 == 1.0` and the like are not identified (never compared by the visitor);
+tuples: element-wise; floats by value (`numEq`: `1.0 == 1.00`); `True == 1`, `1 == 1.0` (int against float) and the
+like are not identified (never compared by the visitor: every number it keeps went through `float`);
 contexts and tokens are compared by identity in Python and by structure here (never compared by the visitor). -/
 def V.eq : V → V → Bool
   | .none, .none => true
   | .bool a, .bool b => a == b
   | .int a, .int b => a == b
-  | .num a, .num b => a == b
+  | .num a, .num b => numEq a b
   | .str a, .str b => a == b
   | .list a, .list b => V.eqList a b
   | .tuple a, .tuple b => V.eqList a b
